@@ -11,6 +11,7 @@ import (
 	"sort"
 	"testing"
 
+	"verifharness/appsys"
 	"verifharness/sysrun"
 	"verifharness/vh"
 )
@@ -18,6 +19,11 @@ import (
 func TestCheck(t *testing.T) {
 	env := vh.GetEnv()
 	run := vh.NewRun(env, "AM.Run.C08Run")
+	// app engine: 1-3 REAL application instances (package app) clustered over loopback, in real time, in their own
+	// process; reports through run. true = the replay file held an app-engine case and has been handled.
+	if appsys.Part(t, env, run, "C08") {
+		return
+	}
 	var css []sysrun.ClusterScenario
 	if env.Replay != "" {
 		var cs sysrun.ClusterScenario
